@@ -298,6 +298,36 @@ def okC07ties (ctx : Ctx) (c2 : Ctx2) (acts : List (Act α)) : Bool :=
   | [] => false
   | first :: rest => go first rest
 
+/-- Scottish rule 49(2)/51(2): a tie is resolved by the most recent stage (the `round` snapshots so far, newest first)
+    at which exactly one of the tied candidates is lowest (exclusion) or highest (surplus) among them; only if there
+    is none, by lot, i.e. the declared tie order -/
+def okC07scot (ctx : Ctx) (c2 : Ctx2) (acts : List (Act α)) : Bool :=
+  let uniqueExtreme (lowest : Bool) (tied : List Nat) (r : Snap α) : Option Nat :=
+    let vs := tied.filterMap (fun c => (voteOfSnap r c).map (fun v => (c, v)))
+    match vs with
+    | [] => none
+    | x :: xs =>
+      let ext := xs.foldl (fun m y => if (if lowest then A.ltRaw y.2 m.2 else A.ltRaw m.2 y.2) then y else m) x
+      match vs.filter (fun y => rawEq A y.2 ext.2) with
+      | [y] => some y.1
+      | _ => none
+  let rec go (rounds : List (Snap α)) : List (Act α × Snap α) → Bool
+    | [] => true
+    | (a, s) :: rest =>
+      let rounds' := if a.tag == "round" then s :: rounds else rounds
+      let ok :=
+        if ctx.rule == "scotland" && a.tag == "tie" then
+          match a.subj with
+          | chosen :: tied =>
+            let lowest := hasSub a.verb "defeat"
+            match rounds'.findSome? (uniqueExtreme lowest tied) with
+            | some c => hasSub a.verb "prior stage" && chosen == c
+            | none => hasSub a.verb "by lot" && tied.all (fun t => tieOf c2 chosen ≤ tieOf c2 t)
+          | [] => false
+        else true
+      ok && go rounds' rest
+  go [] (snapsOf acts)
+
 /-! ## C08: keep factors -/
 
 /-- at the snapshots C08 names: hopeful kf = 1, defeated kf = 0 (the candidate being defeated by this very action
